@@ -59,6 +59,9 @@ def grid(tier, seed):
              dict(n=12, pool=1, max_tasks=25, net_always=[101, 104], net_wrapped=[106], net_flaky={"102": 2, "108": 3}, raising=[110], api="run"),
              dict(n=6, pool=2, max_tasks=2, net_always=[103], tolerate_fails=False),
              dict(n=6, pool=1, max_tasks=2, net_always=[103], tolerate_fails=False)]
+    # the same id submitted several times: every submission has its own outcome
+    base += [dict(n=8, pool=2, max_tasks=2, dup_ids=True), dict(n=4, pool=4, max_tasks=25, dup_ids=True, task_ms=2, task_jitter=True),
+             dict(n=10, pool=3, max_tasks=25, dup_ids=True, consumer_ms=5)]
     # ids as the file front ends submit them: (old path, new path) tuples, with and without a ".cfg" name
     base += [dict(n=12, pool=3, max_tasks=25, tuple_ids=True), dict(n=12, pool=4, max_tasks=2, tuple_ids=True, api="run", raising=[103]),
              dict(n=6, pool=1, max_tasks=25, tuple_ids=True)]
